@@ -294,7 +294,9 @@ func (w *c02World) checkGrpcBlock(wit c02Witness, res *old_faithful_grpc.BlockRe
 			fail("metadata-content", "transactions[%d] (%s): metadata differs (%d vs %d bytes)", i, tx.Sig, len(g.Meta), len(tx.MetaRaw))
 			return
 		}
-		if g.Index == nil || *g.Index != uint64(tx.Pos) {
+		// (a transaction archived without the optional position index has none to report; if one is reported
+		// it must be the true one)
+		if (g.Index == nil && !tx.NoPos) || (g.Index != nil && *g.Index != uint64(tx.Pos)) {
 			fail("position", "transactions[%d] (%s): index=%v want %d", i, tx.Sig, g.Index, tx.Pos)
 			return
 		}
@@ -312,7 +314,7 @@ func (w *c02World) checkGrpcTx(wit c02Witness, res *old_faithful_grpc.Transactio
 	if res.BlockTime != b.Blocktime {
 		fail("block-time", "BlockTime=%d want %d", res.BlockTime, b.Blocktime)
 	}
-	if res.Index == nil || *res.Index != uint64(tx.Pos) {
+	if (res.Index == nil && !tx.NoPos) || (res.Index != nil && *res.Index != uint64(tx.Pos)) {
 		fail("position", "Index=%v want %d", res.Index, tx.Pos)
 	}
 	if res.Transaction == nil || !bytes.Equal(res.Transaction.Transaction, tx.Raw) {
@@ -327,7 +329,7 @@ type c02Job func()
 func TestVerifC02(t *testing.T) {
 	rec := ev.New("C02", "rpc-answers")
 	defer rec.Flush()
-	rec.Rule("every archived slot and signature of every generated epoch, requested through JSON-RPC getBlock/getTransaction/getBlockTime (base58, base64, base64+zstd, json) and gRPC GetBlock/GetTransaction/GetBlockTime/Get for every non-empty subset of loaded epochs and concurrency in {1,2,NumCPU}; distinct = (epoch set, concurrency, encoding, surface) cells with >= 1 non-empty block")
+	rec.Rule("every archived slot and signature of every generated epoch, requested through JSON-RPC getBlock/getTransaction/getBlockTime (base58, base64, base64+zstd, json) and gRPC GetBlock/GetTransaction/GetBlockTime/Get for every non-empty subset of loaded epochs and concurrency in {1,2,NumCPU}; epochs arriving one by one on a server that is already answering; distinct = (epoch set, concurrency, encoding, surface) cells with >= 1 non-empty block")
 	seed := ev.Seed()
 	root := filepath.Join(ev.Scratch(), "c02")
 	os.MkdirAll(root, 0o755)
@@ -342,6 +344,9 @@ func TestVerifC02(t *testing.T) {
 		{Epoch: 1, Seed: seed + 1, NSlots: nsl, SkipOneIn: 3, MaxEntries: 4, MaxTx: 3, MultiFrameOneIn: 3, MaxFrames: 40, FanOut: 0, SplitTxData: true, RewardsOneIn: 2, VoteOneIn: 3, FailOneIn: 5, V0OneIn: 3, BigOneIn: 15, LegacyFnvOneIn: 3, BlocktimeEdgeOneIn: 5, LastSlot: true},
 		{Epoch: 2, Seed: seed + 2, NSlots: nsl, SkipOneIn: 0, MaxEntries: 2, MaxTx: 5, MultiFrameOneIn: 6, MaxFrames: 5, RewardsOneIn: 0, VoteOneIn: 2, FailOneIn: 3, V0OneIn: 5, SigEdgeOneIn: 4, SubsetEvery: 9},
 	}
+	// an epoch in the first format generation: transactions without the optional position index (their
+	// order is the order of the entries)
+	specs = append(specs, cargen.Opts{Epoch: 3, Seed: seed + 3, NSlots: 40, SkipOneIn: 4, MaxEntries: 3, MaxTx: 6, MultiFrameOneIn: 5, VoteOneIn: 4, FailOneIn: 4, NoPosIndex: true})
 	if ev.Thorough() {
 		specs = append(specs, cargen.Opts{Epoch: 5, Seed: seed + 5, NSlots: nsl, SkipOneIn: 2, MaxEntries: 5, MaxTx: 6, MultiFrameOneIn: 2, MaxFrames: 60, SplitTxData: true, RewardsOneIn: 1, VoteOneIn: 4, FailOneIn: 4, V0OneIn: 2, RootSha512: true})
 	}
@@ -623,6 +628,44 @@ func TestVerifC02(t *testing.T) {
 			}
 		}
 		rec.Distinct("corner/epoch0-slot1-skipped")
+	}
+	// ---- epochs that arrive while the server is already answering (asynchronous start-up, --watch): after
+	// every arrival each signature of every loaded epoch must be answered, for each concurrency setting
+	for _, conc := range concs {
+		if rec.Enough() || len(epochs) < 3 {
+			break
+		}
+		cache := vfNewCache()
+		multi := NewMultiEpoch(&Options{EpochSearchConcurrency: conc})
+		h := newMultiEpochHandler(multi, nil)
+		// (arrival order not ascending)
+		order := []uint64{epochs[1], epochs[0]}
+		order = append(order, epochs[2:]...)
+		var loaded []uint64
+		for _, e := range order {
+			ep, err := fxs[e].vfLoad(cache)
+			if err != nil {
+				t.Fatalf("load epoch %d: %v", e, err)
+			}
+			if err := multi.AddEpoch(e, ep); err != nil {
+				t.Fatal(err)
+			}
+			loaded = append(loaded, e)
+			wit := c02Witness{Seed: seed, Epochs: append([]uint64{}, loaded...), Conc: conc, Encoding: "base64"}
+			for _, le := range loaded {
+				m := models[le]
+				n := 0
+				for _, b := range m.Blocks {
+					for _, tx := range b.Txs {
+						if n%5 == 0 || le == e {
+							w.jsonGetTransaction(h, wit, tx, b)
+						}
+						n++
+					}
+				}
+			}
+			rec.Distinct(fmt.Sprintf("arrivals/c%d/%v", conc, loaded))
+		}
 	}
 	_ = strings.Join
 	_ = solana.Signature{}
